@@ -41,12 +41,22 @@ def envOf (hay : Bytes) (names : List (Bytes × Nat)) (c : Caps) : Env :=
   { group := fun i => (c.get i).map fun sp => slice hay sp.s sp.e
   , nameIdx := fun nm => (names.find? (fun p => p.1 == nm)).map (·.2) }
 
+/-- `is_at_unterminated_end(searcher, bytes, &range)`: the range ends the haystack and does not end in a
+line terminator, so an (empty) match at the very end still belongs to the range's last line. -/
+def isAtUnterminatedEnd (t : LineTerm) (bytes : Bytes) (rs re : Nat) : Bool :=
+  re == bytes.length && decide (rs ≤ re) && !t.isSuffix (slice bytes rs re)
+
+/-- `m.start() >= range.end && !(at_unterminated_end && m.start() == range.end)`: the callback's
+"this match lies beyond the range, stop" test. -/
+def beyondRange (re : Nat) (atEnd : Bool) (s : Nat) : Bool :=
+  decide (s ≥ re) && !(atEnd && s == re)
+
 /-- `replace_with_captures_in_context` with the closure `replace_all` passes to it. -/
 def replaceWithCapturesInContext (capsAt : Nat → Option Caps) (names : List (Bytes × Nat))
-    (bytes : Bytes) (rs re : Nat) (tmpl : Bytes) : RState :=
+    (bytes : Bytes) (rs re : Nat) (atEnd : Bool) (tmpl : Bytes) : RState :=
   let step := fun (st : RState) (c : Caps) =>
     let m := (c.get 0).getD ⟨0, 0⟩
-    if m.s ≥ re then (st, false)
+    if beyondRange re atEnd m.s then (st, false)
     else
       let dst1 := st.dst ++ slice bytes st.lastMatch m.s
       let exp := interpolate (envOf bytes names c) tmpl
@@ -63,7 +73,7 @@ def replaceAllLine (t : LineTerm) (capsAtOf : Bytes → Nat → Option Caps) (na
     (haystack : Bytes) (rs re : Nat) (tmpl : Bytes) : RState :=
   let e := trimLineTerminator t haystack 0 re
   let hay := haystack.take e
-  replaceWithCapturesInContext (capsAtOf hay) names hay rs re tmpl
+  replaceWithCapturesInContext (capsAtOf hay) names hay rs re (isAtUnterminatedEnd t hay rs re) tmpl
 
 def LineTerm.bytes : LineTerm → Bytes
   | .byte b => [b]
